@@ -6,6 +6,11 @@ here="$(cd "$(dirname "$0")/.." && pwd)"
 scratch="$(mktemp -d /tmp/bklverif-harmless.XXXXXX)"
 trap 'rm -rf "$scratch"' EXIT
 rsync -a --exclude .git --exclude testdata /repo/ "$scratch/repo/"
+# run from a snapshot of the machinery (see run.sh): an hour-long run must not depend on what happens to /verif meanwhile
+snap="$scratch/verif"; mkdir -p "$snap/work"
+for d in bin spec ledger contracts selftest known-findings.jsonl assumed-obligations.jsonl properties.jsonl; do cp -a "$here/$d" "$snap/"; done
+cp -a "$here/work/cache" "$snap/work/" 2>/dev/null
+export VERIF_DIR="$snap"
 fail=0; n=0
 for p in "$here"/selftest/harmless/${1:-*}.patch "$here"/selftest/harmless-any/${1:-*}.patch; do
   [ -e "$p" ] || continue
@@ -14,11 +19,13 @@ for p in "$here"/selftest/harmless/${1:-*}.patch "$here"/selftest/harmless-any/$
   if ! ( cd "$scratch/repo" && GOFLAGS=-mod=mod GOPROXY=off go build ./... ) >/dev/null 2>&1; then echo "SELFTEST-BROKEN $b: does not build"; fail=1; fi
   bad=""
   for i in $(seq -w 1 20); do
-    out="$(VERIF_REPO="$scratch/repo" "$here/bin/bklverif" check "C$i" quick 2>&1)"; rc=$?
+    out="$(VERIF_REPO="$scratch/repo" "$snap/bin/bklverif" check "C$i" quick 2>&1)"; rc=$?
     if [ $rc -ne 0 ]; then bad="$bad C$i"; echo "$out" | grep '^VIOLATION' | sed 's/replay=[^ ]* //' | head -3 | sed "s/^/    /"; fi
   done
   patch -s -R -p1 -d "$scratch/repo" < "$p"
-  if [ -z "$bad" ]; then echo "ok   quiet on all 20  $b"; else echo "FALSE-ALARM  $b:$bad"; fail=1; fi
+  if [ -z "$bad" ]; then echo "ok   quiet on all 20  $b";
+  elif grep -qx "$b" "$here/selftest/harmless-any/EXPECTED" 2>/dev/null; then echo "EXPECTED-ALARM (structure of a contracted function changed, DESIGN 10.8)  $b:$bad";
+  else echo "FALSE-ALARM  $b:$bad"; fail=1; fi
 done
 echo "harmless-all: $n edits, fail=$fail"
 exit $fail
